@@ -95,9 +95,28 @@ def lean_sources():
     return sorted(res)
 
 
-def forbidden_tokens():
+def import_closure(module):
+    """project files transitively imported by `module` (e.g. OratioProofs.Properties.C15)"""
+    seen, todo, files = set(), [module], []
+    while todo:
+        m = todo.pop()
+        if m in seen:
+            continue
+        seen.add(m)
+        p = os.path.join(LEAN, *m.split(".")) + ".lean"
+        if not os.path.exists(p):
+            continue
+        files.append(p)
+        for line in strip_lean_comments(open(p, encoding="utf-8").read()).split("\n"):
+            mm = re.match(r"\s*import\s+(\S+)", line)
+            if mm:
+                todo.append(mm.group(1))
+    return sorted(files)
+
+
+def forbidden_tokens(files=None):
     hits = []
-    for p in lean_sources():
+    for p in (files if files is not None else lean_sources()):
         code = strip_lean_comments(open(p, encoding="utf-8").read())
         for ln, line in enumerate(code.split("\n"), 1):
             for pat in FORBIDDEN:
@@ -106,11 +125,25 @@ def forbidden_tokens():
     return hits
 
 
+def property_modules(prop):
+    """the property's statement files: Properties/<prop>.lean and Properties/<prop><Suffix>.lean"""
+    d = os.path.join(LEAN, "OratioProofs", "Properties")
+    res = []
+    for f in sorted(os.listdir(d)):
+        if re.fullmatch(re.escape(prop) + r"[A-Za-z]*\.lean", f):
+            res.append("OratioProofs.Properties." + f[:-5])
+    return res
+
+
 def property_theorems(prop):
-    """names of the theorems stated in OratioProofs/Properties/<prop>.lean (the obligations)"""
-    p = os.path.join(LEAN, "OratioProofs", "Properties", f"{prop}.lean")
-    if not os.path.exists(p):
-        return []
+    """names of the theorems stated in the property's statement files (the obligations)"""
+    names = []
+    for m in property_modules(prop):
+        names += _module_theorems(os.path.join(LEAN, *m.split(".")) + ".lean")
+    return names
+
+
+def _module_theorems(p):
     code = strip_lean_comments(open(p, encoding="utf-8").read())
     ns = []
     names = []
@@ -134,7 +167,9 @@ def audit(prop):
     (obligations, discharged, details, problems)."""
     names = property_theorems(prop)
     problems = []
-    hits = forbidden_tokens()
+    mods = property_modules(prop)
+    files = sorted({f for m in mods for f in import_closure(m)})
+    hits = forbidden_tokens(files)
     if hits:
         problems.append("forbidden tokens: " + "; ".join(hits[:5]))
     if not names:
@@ -143,7 +178,8 @@ def audit(prop):
     os.makedirs(os.path.join(LEAN, ".lake", "audit"), exist_ok=True)
     f = os.path.join(LEAN, ".lake", "audit", f"Audit_{prop}.lean")
     with open(f, "w") as fh:
-        fh.write(f"import OratioProofs.Properties.{prop}\n")
+        for m in mods:
+            fh.write(f"import {m}\n")
         for n in names:
             fh.write(f"#print axioms {n}\n")
     rc, out = sh(["lake", "env", "lean", f], cwd=LEAN, timeout=3600)
